@@ -36,7 +36,8 @@ def cases(rng, tier, X):
         for _ in range(rng.randint(3, 14)):
             ty = rng.choice([0x0e, 0x0e, 0x11, 0x13, 0x0e, 0x12, 0x14, 0, rng.randrange(256)])
             off = min(rng.choice(offs + [rng.randrange(65536)]), 65535)
-            ops.append('rx 0 ' + F.qltlv(mapper, own, rng.choice([1, 0x0100, 0xffff, 0, rng.randrange(1, 65536)]), ty, off, eth_src=eth, tos=rng.choice([0, 0, 1])))
+            who = mapper if rng.random() < 0.8 else rng.choice(F.STATIONS)      # also requests from a station that is not the active mapper
+            ops.append('rx 0 ' + F.qltlv(who, own, rng.choice([1, 0x0100, 0xffff, 0, rng.randrange(1, 65536)]), ty, off, eth_src=rng.choice([eth, eth, None, rng.choice(F.STATIONS)]), tos=rng.choice([0, 0, 1])))
         # reassembly walk on the icon and the friendly name
         for ty, sz in ((0x0e, size), (0x11, min(size, 3000))):
             off = 0
